@@ -147,7 +147,10 @@ def inline_all(fns, known):
         changed = False
         # innermost first: a helper that itself calls helpers is expanded before it is copied
         for k in sorted(fns, key=lambda k: (k not in helpers, k)):
-            nr, done = inline_into(fns[k], fns, helpers - {k})
+            try:
+                nr, done = inline_into(fns[k], fns, helpers - {k})
+            except Exception:
+                continue                 # leave the caller as it is
             if done:
                 fns[k] = nr
                 report.setdefault(k, []).extend(done)
